@@ -109,3 +109,14 @@ Theorem C06_parcons_on_model_partition : forall K n bound exact aux,
   wfU (seq 0 n) c /\ before P c /\ (snd (parcons K bound exact aux P) = true -> score K c = opt K (seq 0 n) /\ is_optimal K (seq 0 n) c).
 Proof. exact parcons_on_model_partition. Qed.
 Print Assumptions C06_parcons_on_model_partition.
+
+(** the partition, the test that a component can be tied and the no-back-arc test only compare costs: a positive common factor of the
+    table changes none of them *)
+From Corankco Require Import Scaling.
+Theorem C06_partition_scale_invariant : forall k K n, 0 < k -> sccs (scale_table k K) n = sccs K n.
+Proof. intros k K n H. apply sccs_scale. exact H. Qed.
+Print Assumptions C06_partition_scale_invariant.
+Theorem C06_tests_scale_invariant : forall k K, 0 < k ->
+  (forall P, no_back_arcs (scale_table k K) P = no_back_arcs K P) /\ (forall G, can_be_all_tied (scale_table k K) G = can_be_all_tied K G).
+Proof. intros k K H. split; intros; [apply no_back_arcs_scale|apply can_be_all_tied_scale]; exact H. Qed.
+Print Assumptions C06_tests_scale_invariant.
